@@ -60,7 +60,6 @@ type AImp struct {
 	XR      [][2]int `json:"xr"`      // messages: extension ranges
 	MSet    bool     `json:"mset"`    // messages
 	MapEnt  bool     `json:"mapent"`  // messages
-	Members []string `json:"members"` // (unused by the specification; kept empty)
 }
 
 type AField struct {
@@ -862,7 +861,7 @@ func envOf(f *AFile, r interface {
 				continue
 			}
 			seen[c] = true
-			imp := AImp{Full: c, File: d.ParentFile().Path(), Vis: vis[d.ParentFile().Path()], Vals: []AVal{}, XR: [][2]int{}, Members: []string{}}
+			imp := AImp{Full: c, File: d.ParentFile().Path(), Vis: vis[d.ParentFile().Path()], Vals: []AVal{}, XR: [][2]int{}}
 			switch d := d.(type) {
 			case protoreflect.MessageDescriptor:
 				imp.K = "m"
